@@ -2,6 +2,7 @@
 import importlib
 
 _ENGINES = {
+    "C03": ("sims.progsim", "ProgSim"),
     "C04": ("sims.histsim", "HistSim"),
     "C07": ("sims.modesim", "ModeSim"),
     "C08": ("sims.optsim", "OptSim"),
